@@ -6,6 +6,7 @@ apply patch.diff to /repo, run ./check <PID> --tier quick, undo the patch, updat
 Leaves /repo clean, restores evidence/ and the regenerated Gen tables afterwards.
 Also (re)writes seeded/SUMMARY.md."""
 import json, os, subprocess, sys
+os.environ["VERIF_SCRATCH_EVIDENCE"] = "1"   # evidence of runs against a modified /repo goes under .work/
 ROOT = os.path.dirname(os.path.dirname(os.path.abspath(__file__)))
 SEEDED = os.path.join(ROOT, "seeded")
 
